@@ -95,6 +95,12 @@ def step (s : St) (toks : List String) : Option (St × String × String) :=
       let m := readAll (Hs d.alg) d.v r
       let sp := match specExact d r with | some b => "ok:" ++ showBytes b | none => "err"
       some (s, showRes m, sp)
+  | "fetchall" :: rest => do   -- content.FetchAll over a fetcher that hands out the reader: ReadAll's verdict
+      let d ← parseDesc rest
+      let r ← parseReader (← kv rest "reader")
+      let m := readAll (Hs d.alg) d.v r
+      let sp := match specExact d r with | some b => "ok:" ++ showBytes b | none => "err"
+      some (s, showRes m, sp)
   | "copy" :: rest => do
       let d ← parseDesc rest
       let r ← parseReader (← kv rest "reader")
